@@ -78,6 +78,9 @@ type c20Inscr struct {
 	Key         mon.Hex `json:"key"`
 	OpReturn    bool    `json:"op_return_tail"`
 	TailLens    []int   `json:"op_return_item_lens,omitempty"` // lengths of the enriched OP_RETURN items (overrides the default two-item tail)
+	// PrefixHash: when 20 bytes long, the P2PKH prefix pays to this hash instead of the key's
+	// (hashes that contain the bytes of the inscription envelope's start)
+	PrefixHash mon.Hex `json:"prefix_hash,omitempty"`
 }
 
 // c20Wallet is a caller's own bt.Unlocker (an external wallet): it signs P2PKH
@@ -403,6 +406,9 @@ func c20JudgeInscr(c *mon.Ctx, in *c20Inscr) {
 	c.Eval(1)
 	k, _ := bec.PrivKeyFromBytes(bec.S256(), in.Key)
 	prefix := p2pkhOf(k)
+	if len(in.PrefixHash) == 20 {
+		prefix = bscript.NewFromBytes(gen.P2PKH(in.PrefixHash))
+	}
 	want := append([]byte{}, *prefix...)
 	tx := bt.NewTx()
 	args := &bscript.InscriptionArgs{LockingScriptPrefix: bscript.NewFromBytes(append([]byte{}, *prefix...)), Data: append([]byte{}, in.Data...), ContentType: in.ContentType}
@@ -642,6 +648,22 @@ func init() {
 					lens = []int{first, last}
 				}
 				inscr(c, &c20Inscr{ContentType: "text/plain", Data: r.Bytes(1 + r.Intn(40)), Key: k, OpReturn: true, TailLens: lens})
+			}
+		}
+		c.Phase("inscriptions-prefix-hash-holds-envelope-bytes") // the 20-byte hash of the prefix contains OP_FALSE OP_IF <"ord"> at every offset
+		n = 0
+		for off := 0; off+6 <= 20; off++ {
+			for _, tail := range []bool{false, true} {
+				n++
+				if !c.Case(n) {
+					continue
+				}
+				r := c.Rand(n)
+				k := r.Bytes(32)
+				k[0] &= 0x7f
+				h := r.Bytes(20)
+				copy(h[off:], []byte{0x00, 0x63, 0x03, 'o', 'r', 'd'})
+				inscr(c, &c20Inscr{ContentType: "text/plain", Data: r.Bytes(1 + r.Intn(60)), Key: k, OpReturn: tail, PrefixHash: h})
 			}
 		}
 		c.Phase("inscriptions-random")
